@@ -133,7 +133,7 @@ func ParseFilename(filename string) (blockNum uint64, blockIDSuffix string, prev
 		return
 	}
 
-	blockNumVal, parseErr := strconv.ParseUint(parts[0], 10, 32)
+	blockNumVal, parseErr := strconv.ParseUint(parts[0], 10, 64)
 	if parseErr != nil {
 		err = fmt.Errorf("failed parsing %q: %s", parts[0], parseErr)
 		return
@@ -143,7 +143,7 @@ func ParseFilename(filename string) (blockNum uint64, blockIDSuffix string, prev
 	blockIDSuffix = parts[1]
 	previousBlockIDSuffix = parts[2]
 	canonicalName = filename
-	libNum, parseErr = strconv.ParseUint(parts[3], 10, 32)
+	libNum, parseErr = strconv.ParseUint(parts[3], 10, 64)
 	if parseErr != nil {
 		err = fmt.Errorf("failed parsing lib num %q: %s", parts[4], parseErr)
 		return
